@@ -417,6 +417,19 @@ theorem C09_instance_text_simultaneous (spec : Spec) {ord : List Str → List St
   · intro segs hc he
     rw [h4, he]; exact passes_simultaneous _ segs hok hc
 
+/-- the same for the single instance of a step that uses no parameter: one pass per referenced
+workspace, then `$(WORKSPACE)`; no parameter pass at all -/
+theorem C09_unparameterised_text (spec : Spec) {ord : List Str → List Str} (ho : IsPermOracle ord)
+    (st : Step) (s s' : SS) (hu : usedOf spec s.used st = .ok [])
+    (h : stageStep spec ord s st = .ok s') :
+    ∃ (t : Table) (inst : Inst),
+      t.map (·.1) = (refsOf st).map (· ++ ".workspace".toList) ∧
+      inst.name = st.name ∧ inst.ws = makeSafePath spec.root [st.name] ∧
+      inst.cmd = passes (t ++ [("WORKSPACE".toList, inst.ws)]) st.cmd ∧
+      inst.restart = passes (t ++ [("WORKSPACE".toList, inst.ws)]) st.restart ∧
+      s'.g.insts = if s.g.hasNode inst.name then s.g.insts else s.g.insts ++ [inst] :=
+  stageFlat_text spec ho st s s' hu h
+
 def demoSize : Param :=
   { key := "SIZE".toList, name := "SIZE".toList, tmpl := some "SIZE.%%".toList, labels := [],
     values := ["10".toList, "20".toList] }
